@@ -140,3 +140,8 @@ pub broadcast axiom fn axiom_encode_concat(a: Seq<char>, b: Seq<char>)
 pub broadcast axiom fn axiom_ascii_one_byte(c: char)
     requires (c as u32) < 128
     ensures #[trigger] encode_utf8(seq![c]).len() == 1;
+// rule R32 target: same call; assumed spec = std: `str::len` is the length in bytes of the UTF-8 encoding
+#[verifier::external_body]
+fn verif_str_len(s: &str) -> (r: usize)
+    ensures r == encode_utf8(s@).len()
+{ s.len() }
